@@ -1,6 +1,7 @@
 package main
 
 import (
+	"regexp"
 	"fmt"
 	"go/types"
 	"sort"
@@ -253,6 +254,30 @@ func (r *Run) Guard(fnName, cond, why string, opts ...GuardOpt) *Guard {
 					via = " (via " + strings.Join(ig.via, " → ") + ")"
 				}
 				r.pass("K3-guard", fnName, "reject-if "+cond, "found at "+fmt.Sprintf("%s:%d", g.File, g.Line)+via, why, g.File, g.Line)
+				return g
+			}
+		}
+	}
+	// conjunct-set equality: `reject-if c @ a & b` is the conjunction {a, b, c}; which conjunct is
+	// tested last is a matter of nesting (`if a { if c {fail} }` vs `if !c {…}; if a {fail}`)
+	wantSets := map[string]bool{}
+	for _, w := range want {
+		wantSets[conjunctKey(w)] = true
+		wantSets["~"+dataConjunctKey(w)] = true
+	}
+	for _, ig := range igs {
+		if wantSets[conjunctKey(ig.cond)] || wantSets["~"+dataConjunctKey(ig.cond)] {
+			g := ig.guard
+			ok := true
+			for _, b := range opt.Before {
+				for _, cs := range r.P.FindCalls(g.Fn, b, false) {
+					if !g.DominatesInContext(cs.Instr.Block()) {
+						ok = false
+					}
+				}
+			}
+			if ok {
+				r.pass("K3-guard", fnName, "reject-if "+cond, fmt.Sprintf("found at %s:%d as the same conjunction tested in another order (%s)", g.File, g.Line, ig.cond), why, g.File, g.Line)
 				return g
 			}
 		}
@@ -667,6 +692,22 @@ func (r *Run) WhoMayCall(construct string, targetNames []string, allowed []strin
 		if e.Site != nil {
 			file, line = r.P.Pos(e.Site.Pos())
 		}
+		// a helper that is new relative to the reviewed tree acts for its callers: allowed when every
+		// one of its own callers is
+		if f := r.P.Fn(n); f != nil && knownFuncs != nil && !knownFuncs[n] {
+			up := r.callersOf(map[*ssa.Function]bool{f: true}, r.P.CHA())
+			okAll := len(up) > 0
+			for un := range up {
+				if !matchAny(un, allowed) && !isScaffolding(un) {
+					okAll = false
+				}
+			}
+			if okAll {
+				nOK++
+				r.pass("K1-who-may-call", n, construct, "new helper called only by allowed callers", why, file, line)
+				continue
+			}
+		}
 		r.viol("K1-who-may-call", n, construct, fmt.Sprintf("%s calls %s (%s) but is not in the set of functions allowed to: %s", n, r.P.FuncName(e.Callee.Func), construct, strings.Join(allowed, ", ")), why, file, line)
 	}
 	if nOK == 0 {
@@ -885,6 +926,11 @@ func (r *Run) Has(fnName, canon, why string) *Effect {
 			return e
 		}
 	}
+	if r.P.NewHelperEffects(fn)[canon] {
+		file, line := r.P.FnPos(fn)
+		r.pass("K4-effect", fnName, canon, "performed through a helper that is new relative to the reviewed tree", why, file, line)
+		return nil
+	}
 	file, line := r.P.FnPos(fn)
 	set := map[string]bool{}
 	for _, e := range r.P.Effects(fn) {
@@ -1026,6 +1072,32 @@ func normFull(s string) string {
 func (r *Run) tailPropagates(fn *ssa.Function, want []string) (*ssa.Return, string) {
 	ei := errResultIndex(fn.Signature)
 	if ei < 0 {
+		// a predicate that returns the comparison itself: `return a >= b` refuses exactly when
+		// `if a < b { return false }; return true` does
+		res := fn.Signature.Results()
+		if res.Len() == 1 && isBool(res.At(0).Type()) {
+			env := r.P.Env(fn)
+			for _, b := range fn.Blocks {
+				ret, ok := lastInstr(b).(*ssa.Return)
+				if !ok || b == fn.Recover || len(ret.Results) != 1 {
+					continue
+				}
+				v := retOperand(ret, 0)
+				if _, isC := v.(*ssa.Const); isC {
+					continue
+				}
+				c := env.condOf(v)
+				if c.Op == "T" || c.Op == "F" {
+					continue
+				}
+				full := normFull(fullCond(c.Negate(), r.blockCtx(fn, b)))
+				for _, w := range want {
+					if full == w {
+						return ret, full
+					}
+				}
+			}
+		}
 		return nil, ""
 	}
 	env := r.P.Env(fn)
@@ -1053,4 +1125,67 @@ func (r *Run) tailPropagates(fn *ssa.Function, want []string) (*ssa.Return, stri
 		}
 	}
 	return nil, ""
+}
+
+// tailBoolRejects: the rejections a predicate performs by returning a comparison (`return a >= b`
+// refuses when a < b), in guard normal form.
+func (r *Run) tailBoolRejects(fn *ssa.Function) []string {
+	res := fn.Signature.Results()
+	if res.Len() != 1 || !isBool(res.At(0).Type()) {
+		return nil
+	}
+	var out []string
+	env := r.P.Env(fn)
+	for _, b := range fn.Blocks {
+		ret, ok := lastInstr(b).(*ssa.Return)
+		if !ok || b == fn.Recover || len(ret.Results) != 1 {
+			continue
+		}
+		v := retOperand(ret, 0)
+		if _, isC := v.(*ssa.Const); isC {
+			continue
+		}
+		c := env.condOf(v)
+		if c.Op == "T" || c.Op == "F" {
+			continue
+		}
+		out = append(out, normFull(fullCond(c.Negate(), r.blockCtx(fn, b))))
+	}
+	return out
+}
+
+// conjunctKey: the sorted set of conjuncts of a guard text "c @ a & b".
+func conjunctKey(full string) string {
+	head, ctx, has := strings.Cut(full, " @ ")
+	parts := []string{head}
+	if has {
+		parts = append(parts, strings.Split(ctx, " & ")...)
+	}
+	sort.Strings(parts)
+	var u []string
+	for i, p := range parts {
+		if i == 0 || p != parts[i-1] {
+			u = append(u, p)
+		}
+	}
+	return strings.Join(u, " && ")
+}
+
+var errPlumbingRe = regexp.MustCompile(`^(eq|ne)\((nil,.*#\d+|.*#\d+,nil|(\w+\.)?Err\w+,.*|.*,(\w+\.)?Err\w+)\)$`)
+
+// dataConjunctKey: the rejecting condition plus the *data* conjuncts of its context; context
+// conjuncts that only say "that earlier call did (not) fail" (nil or sentinel compared with an
+// extracted call result) are left out — they differ between nested and flattened error handling.
+func dataConjunctKey(full string) string {
+	head, ctx, has := strings.Cut(full, " @ ")
+	parts := []string{head}
+	if has {
+		for _, c := range strings.Split(ctx, " & ") {
+			if !errPlumbingRe.MatchString(c) {
+				parts = append(parts, c)
+			}
+		}
+	}
+	sort.Strings(parts)
+	return strings.Join(parts, " && ")
 }
